@@ -1,5 +1,7 @@
 package gocql
 
+import "bytes"
+
 // ---- C12 / C02: collections, tuples and user-defined types ----
 //
 // Reference framing (native protocol spec, section 6 of v3/v4, 6/7 of v1/v2): a list or set is
@@ -410,4 +412,47 @@ func vh_nested() {
 	}
 	vAssert(ok, "C02/nested/map-of-lists/roundtrip")
 	vObserve("len", len(want))
+}
+
+// the collection header arithmetic on its own, over the whole count range of each framing:
+// [short] n for protocol <= 2 (0..65535, unsigned), [int] n afterwards (signed 32 bit).
+func vh_collection_size() {
+	p := byte(1 + vChoose("proto", 5))
+	info := CollectionType{NativeType: NativeType{proto: p, typ: TypeList}, Elem: NativeType{proto: p, typ: TypeInt}}
+	n := vInt("n")
+	vAssume(n >= 0)
+	var buf bytes.Buffer
+	err := writeCollectionSize(info, n, &buf)
+	b := buf.Bytes()
+	if p <= 2 {
+		vAssert((err == nil) == (n <= 65535), "C12/collection-size/short-count-range")
+		if err == nil {
+			vAssert(len(b) == 2 && int(b[0]) == n>>8 && int(b[1]) == n&0xff, "C12/collection-size/short-bytes")
+		}
+	} else {
+		vAssert((err == nil) == (n <= 0x7fffffff), "C12/collection-size/int-count-range")
+		if err == nil {
+			vAssert(len(b) == 4 && int(b[0]) == n>>24 && int(b[1]) == (n>>16)&0xff && int(b[2]) == (n>>8)&0xff && int(b[3]) == n&0xff, "C12/collection-size/int-bytes")
+		}
+	}
+	if err == nil {
+		size, read, rerr := readCollectionSize(info, b)
+		vAssert(rerr == nil && size == n && read == len(b), "C02/collection-size/count-roundtrip")
+	}
+	// decoding arbitrary header bytes
+	d := vBytesN("hdr", 4)
+	k := vChoose("have", 5)
+	size, read, rerr := readCollectionSize(info, d[:k])
+	if p <= 2 {
+		vAssert((rerr == nil) == (k >= 2), "C12/collection-size/short-eof")
+		if rerr == nil {
+			vAssert(read == 2 && size == int(d[0])*256+int(d[1]), "C12/collection-size/decode-short-unsigned")
+		}
+	} else {
+		vAssert((rerr == nil) == (k >= 4), "C12/collection-size/int-eof")
+		if rerr == nil {
+			want := int(int32(uint32(d[0])<<24 | uint32(d[1])<<16 | uint32(d[2])<<8 | uint32(d[3])))
+			vAssert(read == 4 && size == want, "C12/collection-size/decode-int-signed")
+		}
+	}
 }
